@@ -324,12 +324,31 @@ def forward_substitute(stmts: List[ast.stmt], T: Translator, stop_at: Optional[a
 
 
 def equal(a: sp.Expr, b: sp.Expr) -> bool:
-    """Algebraic identity over the reals (canonical forms)."""
+    """Algebraic identity over the reals (canonical forms).  Cheap tests first; the full
+    simplifier is only used on small differences."""
     try:
         if a == b:
             return True
-        d = sp.simplify(a - b)
+        d = a - b
         if d == 0:
+            return True
+        # different sets of atoms that cannot cancel: a bare symbol against an expression that
+        # does not contain it at all
+        if a.is_Symbol and not b.has(a) and not b.is_Symbol:
+            return False
+        if b.is_Symbol and not a.has(b) and not a.is_Symbol:
+            return False
+        ops = sp.count_ops(d)
+        if ops > 120:
+            e = sp.expand(d)
+            if e == 0:
+                return True
+            try:
+                return sp.cancel(sp.together(e)) == 0
+            except Exception:
+                return False
+        d1 = sp.simplify(d)
+        if d1 == 0:
             return True
         d2 = sp.simplify(sp.expand(sp.expand_trig(d)))
         if d2 == 0:
